@@ -55,9 +55,15 @@ func init() {
 		seen := make(map[string][4]uint64, len(lamports)*p.MaxDelim*6)
 		for era := uint32(0); era <= 1; era++ {
 			for _, l := range lamports {
+				delims := make([]uint32, 0, p.MaxDelim+12)
 				for d := 0; d <= p.MaxDelim; d++ {
+					delims = append(delims, uint32(d))
+				}
+				// the element index of very large batches and nested values, at the widths it could be narrowed to
+				delims = append(delims, 255, 256, 257, 65535, 65536, 65537, 1<<24, 1<<31-1, 1<<31, 1<<32-1)
+				for _, d := range delims {
 					for ci, c := range cuids {
-						ts := model.NewTimestamp(era, l, c, uint32(d))
+						ts := model.NewTimestamp(era, l, c, d)
 						h := ts.Hash()
 						info.Evaluations++
 						cur := [4]uint64{uint64(era), l, uint64(ci), uint64(d)}
